@@ -1004,7 +1004,7 @@ fn build_world(sc: &SimScenario) -> (World, Vec<(u64, Vec<u8>)>) {
             }
         }
         pristine.push((t.addr, data.clone()));
-        w.map_fixed(t.addr, len, PROT_R | PROT_X, Owner::Text, Some(data));
+        w.map_fixed(t.addr, len, if sc.text_rwx { PROT_R | PROT_X | world::PROT_W } else { PROT_R | PROT_X }, Owner::Text, Some(data));
     }
     for (s, l) in &sc.foreign {
         w.map_fixed(*s, *l, 0, Owner::Foreign, None);
